@@ -264,6 +264,10 @@ class LinesTransportMixin:
         tags: list[str] | None = None,
     ) -> bytes:
         data = await asyncio.wait_for(self.get_reader().readline(), timeout)
+        if not data.endswith(b"\n"):
+            # EOF. A line which is not terminated is not a message: the peer
+            # vanished while sending it, so report the end of the stream.
+            data = b""
         d = data.decode().strip()
 
         t = tags + ["read"] if tags is not None else ["read"]
